@@ -23,7 +23,7 @@ type c37probe struct {
 
 func checkC37(r *ev.Run) {
 	nScripts := r.N(32, 400)
-	r.Rule("case = a generated sequence of governance upgrade messages on top of the mainnet-style bootstrap (codec upgrade, version upgrade, feature activation): further feature-only upgrades naming new features, duplicates of an already scheduled pair, re-scheduling of a scheduled feature to another height, version upgrades that carry features, upgrades by a non-owner (must not count), interleaved with sends; the node runs on an on-disk goleveldb. Observed after every block inside the node process: the codec package's activation predicate for every feature ever named on a height grid, and the stored gov/upgrade parameter. Oracle (a): a reference schedule (map feature -> height, last accepted message wins) predicts every predicate value: active exactly from its height, earlier schedules persist, stored feature list sorted and duplicate-free. Oracle (b): the node process is ended after a PRNG-chosen block and a FRESH process opened over the same databases must report identical predicate values for the whole grid, and continuing the chain there must reproduce the app hashes and tx results of a twin that was never restarted. Non-trivial = the sequence contained a re-scheduling or duplicate and the restart happened after at least one post-bootstrap upgrade; distinct = script digest.")
+	r.Rule("case = a generated sequence of governance upgrade messages on top of the mainnet-style bootstrap (codec upgrade, version upgrade, feature activation): further feature-only upgrades naming new features, duplicates of an already scheduled pair, re-scheduling of a scheduled feature to another height, version upgrades that carry features or name none, upgrades by a non-owner (must not count), interleaved with sends; the node runs on an on-disk goleveldb. Observed after every block inside the node process: the codec package's activation predicate for every feature ever named on a height grid, and the stored gov/upgrade parameter. Oracle (a): a reference schedule (map feature -> height, last accepted message wins) predicts every predicate value: active exactly from its height, earlier schedules persist, stored feature list sorted and duplicate-free. Oracle (b): the node process is ended after a PRNG-chosen block and a FRESH process opened over the same databases must report identical predicate values for the whole grid, and continuing the chain there must reproduce the app hashes and tx results of a twin that was never restarted. Non-trivial = the sequence contained a re-scheduling or duplicate and the restart happened after at least one post-bootstrap upgrade; distinct = script digest.")
 	r.Assume("restart = new OS process over the same goleveldb directories; the driver keeps what Tendermint would keep (height, last block id, validator sets)")
 	ev.ForEach(nScripts, workers(), func(si int) {
 		if r.Only != "" && r.Only != "*" && r.Only != fmt.Sprint(si) {
@@ -107,6 +107,10 @@ func checkC37(r *ev.Run) {
 					ver = false // most scripts do not schedule a second version upgrade while one is pending (see known findings)
 				}
 				uhSent := int64(1)
+				if ver && rr.Intn(3) == 0 {
+					// a plain version upgrade that names no feature: everything scheduled earlier must survive it
+					feats, list = map[string]int64{}, nil
+				}
 				if ver {
 					version++
 					uh := b.H + 1 + int64(rr.Intn(6))
@@ -325,9 +329,9 @@ func checkC37(r *ev.Run) {
 				} `json:"value"`
 			}
 			if s := byH[hh]; s != nil {
-				_ = json.Unmarshal([]byte(s.Params["gov/upgrade"]), &upw)
+				jerr := json.Unmarshal([]byte(s.Params["gov/upgrade"]), &upw)
 				up := upw.Value
-				if len(up.Features) == 0 {
+				if jerr != nil || !strings.Contains(s.Params["gov/upgrade"], "Features") {
 					r.Inconclusive(fmt.Sprintf("script %d height %d: stored upgrade parameter not decodable: %s", si, hh, s.Params["gov/upgrade"]))
 				}
 				if !sort.StringsAreSorted(up.Features) {
